@@ -56,6 +56,9 @@ mutual
     -- "Unrecoverable errors reading input … does not apply to scripts read by the `source` built-in":
     -- the documentation makes no promise
     | .dotIoErr => none
+    -- `exec` that cannot find the utility: the shell is *aborted* (no EXIT trap) or, interactive, goes on —
+    -- not one of the shell errors of termination.md
+    | .execFail _ => none
 
   /-- the first part of the command that fails, in the order words → redirections → assignments → utility -/
   def Simple.shellError : Simple → Option (ShellError × Nat)
